@@ -168,6 +168,15 @@ func (w *world) build(segs []Seg) pair {
 	return cur
 }
 
+// compactTarget: the positive target a compact value stands for (nil: none).
+func compactTarget(bits uint32) *big.Int {
+	v, neg, over := refpow.SetCompact(bits)
+	if neg || over || v.Sign() <= 0 {
+		return nil
+	}
+	return v
+}
+
 // evalHist runs one case; returns "" or (sub-check, description).
 func (w *world) evalHist(c *histCase) (sub, what string) {
 	p := w.build(c.Segs)
